@@ -8,7 +8,11 @@ import (
 	"bytes"
 	"encoding/json"
 	"fmt"
+	"reflect"
+	"strings"
 	"time"
+
+	sch "github.com/parsyl/parquet/schema"
 
 	"github.com/parsyl/parquet"
 	"verif/mc/fw"
@@ -530,6 +534,140 @@ func decoderLong(c *fw.Ctx, width int) {
 	}
 }
 
+// ------------------------------------------------------------ part 5
+
+// publicAPI drives level sequences of every width through the exported
+// column API: OptionalField.DoWrite builds a page (levels via writeLevels,
+// i.e. the call site rle.go:80), the reference parser decodes the page
+// strictly, and OptionalField.DoRead (readLevels, rle.go:211) must give the
+// levels back.
+func publicAPI(c *fw.Ctx, width int, seqs [][]uint8) {
+	maxDef := 1<<uint(width) - 1
+	types := make([]int, maxDef)
+	for i := range types {
+		types[i] = 1 // optional at every level: max definition level = maxDef
+	}
+	path := make([]string, maxDef)
+	for i := range path {
+		path[i] = fmt.Sprintf("g%d", i)
+	}
+	int32Type := func(se *sch.SchemaElement) { t := sch.Type_INT32; se.Type = &t }
+	for si, defs := range seqs {
+		if !c.Mine() {
+			continue
+		}
+		c.Eval()
+		c.Distinct(fmt.Sprintf("api|%d|%d", width, si))
+		sc := seqCase{Width: width, Vals: toInts(defs), Part: "api"}
+		msg := ""
+		p := fw.Protect(func() {
+			fld := parquet.NewOptionalField(path, types, parquet.OptionalFieldUncompressed)
+			meta := parquet.New(parquet.Field{Name: strings.Join(path, "."), Path: path, Types: types, Type: int32Type, RepetitionType: parquet.RepetitionOptional})
+			fld.Defs = append([]uint8(nil), defs...)
+			nvals := 0
+			for _, d := range defs {
+				if int(d) == maxDef {
+					nvals++
+				}
+			}
+			vals := make([]byte, 4*nvals)
+			for i := 0; i < nvals; i++ {
+				vals[4*i] = byte(i + 1)
+			}
+			var page bytes.Buffer
+			if err := fld.DoWrite(&page, meta, vals, len(defs), nopStats{}); err != nil {
+				msg = "DoWrite failed: " + err.Error()
+				return
+			}
+			raw := page.Bytes()
+			pg, err := refpq.ParsePageHeader(raw, 0)
+			if err != nil {
+				msg = "page header: " + err.Error()
+				return
+			}
+			pg.Body = raw[pg.HeaderLen : pg.HeaderLen+pg.Comp]
+			leaf := &refpq.Node{Name: "v", Leaf: true, Phys: refpq.PInt32, GoKind: reflect.Int32, DefLevel: maxDef}
+			if err := refpq.DecodePage(pg, leaf, refpq.CodecNone); err != nil {
+				msg = "the page written through OptionalField.DoWrite is not decodable by the specification: " + err.Error()
+				return
+			}
+			if !bytes.Equal(pg.Defs, defs) {
+				msg = fmt.Sprintf("definition levels in the page differ from the ones written (first difference at %d)", firstDiff(pg.Defs, defs))
+				return
+			}
+			rd := parquet.NewOptionalField(path, types, parquet.OptionalFieldUncompressed)
+			_, sizes, err := rd.DoRead(bytes.NewReader(raw), parquet.Page{N: len(defs), Size: len(raw), Codec: 0})
+			if err != nil {
+				msg = "DoRead failed on the page DoWrite produced: " + err.Error()
+				return
+			}
+			if !bytes.Equal(rd.Defs, defs) {
+				msg = fmt.Sprintf("DoRead returns different definition levels (first difference at %d of %d)", firstDiff(rd.Defs, defs), len(defs))
+				return
+			}
+			if len(sizes) != 1 || sizes[0] != nvals {
+				msg = fmt.Sprintf("DoRead reports %v non-null values, the page has %d", sizes, nvals)
+			}
+		})
+		if p != "" {
+			msg = "panic: " + p
+		}
+		if msg != "" {
+			c.Violate(fmt.Sprintf("api|w%d|%s", width, classify(msg)), msg+fmt.Sprintf("\n(width %d, %d levels)", width, len(defs)), "api", sc)
+		}
+	}
+}
+
+type nopStats struct{}
+
+func (nopStats) NullCount() *int64     { return nil }
+func (nopStats) DistinctCount() *int64 { return nil }
+func (nopStats) Min() []byte           { return nil }
+func (nopStats) Max() []byte           { return nil }
+
+// apiSequences: every sequence up to a short length plus the run-structured
+// boundary lengths, per width.
+func apiSequences(width int, thorough bool) [][]uint8 {
+	var out [][]uint8
+	base := 1 << uint(width)
+	maxLen := map[int]int{1: 9, 2: 5, 3: 4, 4: 3}[width]
+	if thorough {
+		maxLen = map[int]int{1: 12, 2: 7, 3: 5, 4: 4}[width]
+	}
+	for l := 1; l <= maxLen; l++ {
+		total := 1
+		for i := 0; i < l; i++ {
+			total *= base
+		}
+		for x := 0; x < total; x++ {
+			v := make([]uint8, l)
+			y := x
+			for i := range v {
+				v[i] = uint8(y % base)
+				y /= base
+			}
+			out = append(out, v)
+		}
+	}
+	max := uint8(base - 1)
+	for _, n := range []int{7, 8, 9, 63, 64, 65, 503, 504, 505, 511, 512, 513, 1000, 1017} {
+		alt := make([]uint8, n)
+		same := make([]uint8, n)
+		mixed := make([]uint8, n)
+		for i := range alt {
+			alt[i] = uint8(i%2) * max
+			same[i] = max
+			if i < n/2 {
+				mixed[i] = max
+			} else {
+				mixed[i] = uint8(i) & max
+			}
+		}
+		out = append(out, alt, same, mixed)
+	}
+	return out
+}
+
 func toInts(v []uint8) []int {
 	out := make([]int, len(v))
 	for i, x := range v {
@@ -540,11 +678,11 @@ func toInts(v []uint8) []int {
 
 func run(c *fw.Ctx) {
 	gctx = c
-	shortLens := map[int]int{1: 14, 2: 8, 3: 6, 4: 4}
-	planLens := map[int]int{1: 10, 2: 6, 3: 4, 4: 3}
+	shortLens := map[int]int{1: 17, 2: 9, 3: 6, 4: 5}
+	planLens := map[int]int{1: 12, 2: 7, 3: 5, 4: 4}
 	if c.Thorough() {
-		shortLens = map[int]int{1: 18, 2: 10, 3: 7, 4: 5}
-		planLens = map[int]int{1: 13, 2: 8, 3: 6, 4: 5}
+		shortLens = map[int]int{1: 21, 2: 11, 3: 8, 4: 6}
+		planLens = map[int]int{1: 14, 2: 9, 3: 6, 4: 5}
 	}
 	c.Bound("exhaustive_sequence_max_len_by_width", shortLens)
 	c.Bound("all_plans_max_len_by_width", planLens)
@@ -561,6 +699,7 @@ func run(c *fw.Ctx) {
 		runStructured(c, w, c.Thorough())
 		decoderPlans(c, w, planLens[w])
 		decoderLong(c, w)
+		publicAPI(c, w, apiSequences(w, c.Thorough()))
 	}
 }
 
@@ -570,6 +709,9 @@ func replay(c *fw.Ctx, kind string, data json.RawMessage) string {
 		return "bad case: " + err.Error()
 	}
 	vals := s.values()
+	if kind == "api" {
+		return replayAPI(c, s.Width, vals)
+	}
 	if kind == "plan" {
 		stream, err := refpq.EncodeHybridPlan(vals, s.Width, s.Plan)
 		if err != nil {
@@ -580,13 +722,24 @@ func replay(c *fw.Ctx, kind string, data json.RawMessage) string {
 	return checkEncode(s.Width, vals)
 }
 
+func replayAPI(c *fw.Ctx, width int, vals []uint8) string {
+	// run the single sequence through publicAPI with a private context view
+	msg := ""
+	sub := fw.NewReplayCtx(c)
+	publicAPI(sub, width, [][]uint8{vals})
+	if v := sub.FirstViolation(); v != "" {
+		msg = v
+	}
+	return msg
+}
+
 // Main runs the check.
 func Main() {
 	fw.Main(fw.Spec{
 		ID:    "C07",
 		Level: "model_checking",
 		Rule: "(1) breadth-first search of the real rle.RLE encoder's control state (bufCount, min(repeatCount,9), groupCount, header-open) under inputs {same as previous, different}, widths 1-4, two value assignments; every transition is flushed (replayed clone + Bytes()) and decoded by a strict specification decoder and by the library decoder; " +
-			"(2) every level sequence up to a length bound per width; (3) run-structured sequences around the 8-value, 63-group and multi-byte-header boundaries at every alignment; (4) library decoder on every legal run plan of every short sequence and on long bit-packed/RLE families. " +
+			"(2) every level sequence up to a length bound per width; (3) run-structured sequences around the 8-value, 63-group and multi-byte-header boundaries at every alignment; (4) library decoder on every legal run plan of every short sequence and on long bit-packed/RLE families; (5) level sequences of every width 1-4 through the exported column API (OptionalField.DoWrite -> reference page decode -> OptionalField.DoRead). " +
 			"states/transitions count part (1); evaluations count every encode or decode execution",
 		Assumptions: []string{
 			"state abstraction: every branch of Write/writeOrAppendBitPackedRun/endPreviousBitPackedRun/writeRLERun/Bytes tests only the keyed fields; values flow only through valBuf/prev into bitpack.Pack (decided completely by C17)",
